@@ -51,4 +51,19 @@ PROPS = {
                         "slicing calls are only made at valid label boundaries (documented panics otherwise)",
                         "which error variant is returned is not checked, only Ok vs Err; rejecting an in-limit step is noted, not flagged"],
     },
+    "C05": {
+        "level": "exploration",
+        "features": ["hooks"],
+        "stages": [
+            {"mode": "native"},
+            {"mode": "asan", "scale": 0.1},
+        ],
+        "rule": "an evaluation is one RDATA value of one type (all 38 concrete types + OPT options + unknown types, generated field by field from an RFC-derived "
+                "layout table with boundary sizes and a collision-prone name pool) taken through parse, rdlen, compose_rdata, compose_len_rdata, canonical "
+                "compose, flatten, re-parse, compressed-names-on-input, a too-small fixed target, per-option re-compose and UnknownRecordData; or one mutated "
+                "RDATA where acceptance must be idempotent and agree with the reference decoder; distinct = (type, size class, field count) resp. (type, library verdict, reference verdict)",
+        "assumptions": ["the reference layout table (refimpl/wire.rs) transcribes the RDATA formats of RFC 1035, 1183, 2782, 3403, 3596, 4025, 4034, 4255, 5155, 6672, 6698, 6891, 7344, 7929, 8659, 8945, 8976, 9460",
+                        "canonical form lower-cases the names listed in RFC 4034 6.2 except NSEC next name (RFC 6840 5.1); RRSIG signer is lower-cased",
+                        "values are those reachable by parsing RFC-valid wire data; constructors (new/builder APIs) are not separately driven"],
+    },
 }
